@@ -11,16 +11,16 @@ Supported fragment (statements): return e | x = e | x = [] | x.append(e) | x += 
 (expressions): names bound by the target's environment (source text -> Coq variable), integer constants, + - on ints,
   + on sequences, comparisons, `is None` on sequence elements, not/and/or, s[i], s[a:b], len(s), tuple(s)/list(s), (a, b) tuples,
   (None,) * n, generator / list comprehensions over a sequence, range(n) or zip(s, t), all(...) / any(...),
-  `.divisions` of a frame that is represented by its divisions, calls of other translated functions."""
+  min / max of two integers, `.divisions` of a frame that is represented by its divisions, calls of other translated functions."""
 import ast
 import inspect
 import os
 import sys
 import textwrap
 
-OUT = os.path.join(os.path.dirname(os.path.dirname(os.path.abspath(__file__))), "coq", "GeneratedSource.v")
+OUT = os.environ.get("GEN_SOURCE_OUT") or os.path.join(os.path.dirname(os.path.dirname(os.path.abspath(__file__))), "coq", "GeneratedSource.v")
 
-Z, B, L, LL, D = "Z", "bool", "list Z", "list (list Z)", "pydivs"
+Z, B, L, LL, D, OZ = "Z", "bool", "list Z", "list (list Z)", "pydivs", "option Z"
 ELT = {L: Z, LL: L}
 DEFAULT = {Z: "0", L: "[]"}
 
@@ -130,6 +130,12 @@ class Tr:
                 return (a, t)
             if f in ("all", "any") and len(n.args) == 1 and isinstance(n.args[0], ast.GeneratorExp):
                 return self.comp(n.args[0], loc, "forallb" if f == "all" else "existsb")
+            if f in ("min", "max") and len(n.args) == 2:
+                a, ta = self.e(n.args[0], loc)
+                b, tb = self.e(n.args[1], loc)
+                self.want(ta, Z, n)
+                self.want(tb, Z, n)
+                return ("(Z.%s %s %s)" % (f, a, b), Z)
             if f == "range" and len(n.args) == 1:
                 a, t = self.e(n.args[0], loc)
                 self.want(t, Z, n)
@@ -202,12 +208,16 @@ class Tr:
                 return c
             if t == L:
                 return "(Known %s)" % c
+        if self.ret == OZ and t == Z:
+            return "(Some %s)" % c
         if t == self.ret:
             return c
         raise Unsupported("return of type %s in a function of type %s" % (t, self.ret))
 
     def block(self, stmts, loc):
         if not stmts:
+            if self.ret == OZ:
+                return "None"          # falling off the end returns None
             raise Unsupported("control reaches the end without return")
         s, rest = stmts[0], stmts[1:]
         if isinstance(s, ast.Expr) and isinstance(s.value, ast.Constant) and isinstance(s.value.value, str):
@@ -347,6 +357,7 @@ def targets():
     return [
         # coq name, function object, parameters [(coq var, type)], environment {source text: coq var}, return type, optional branch selector
         ("src_is_strictly_increasing", E._is_strictly_increasing, [("partitions", L)], {}, B, None),
+        ("src_nested_selection", E._nested_selection, [("outer", Z), ("inner", Z)], {}, OZ, None),
         ("src_Tail_divisions", g(E.Tail, "_divisions"), [("divs", L)], {"self.frame.divisions": "divs"}, L, None),
         ("src_BlockwiseHead_divisions", g(E.BlockwiseHead, "_divisions"), [("divs", L), ("parts", L)],
          {"self.frame.divisions": "divs", "self._partitions": "parts"}, L, None),
